@@ -4,6 +4,7 @@
 package rfake
 
 import (
+	"time"
 	"context"
 	"errors"
 	"fmt"
@@ -25,6 +26,7 @@ import (
 type Dispatch struct {
 	mu     sync.Mutex
 	chans  map[string]chan *msgstream.MsgPack
+	regs   map[string][]chan *msgstream.MsgPack // every live registration of a virtual channel (a deregistration ends them)
 	Seeks  map[string]*msgpb.MsgPosition
 	Closed map[string]bool
 	Events []string
@@ -39,6 +41,10 @@ func (f *Dispatch) Register(ctx context.Context, c *msgdispatcher.StreamConfig) 
 	defer f.mu.Unlock()
 	ch := make(chan *msgstream.MsgPack)
 	f.chans[c.VChannel] = ch
+	if f.regs == nil {
+		f.regs = map[string][]chan *msgstream.MsgPack{}
+	}
+	f.regs[c.VChannel] = append(f.regs[c.VChannel], ch)
 	f.Seeks[c.VChannel] = c.Pos
 	f.Events = append(f.Events, "register "+c.VChannel)
 	return ch, nil
@@ -48,6 +54,7 @@ func (f *Dispatch) Deregister(v string) {
 	f.mu.Lock()
 	defer f.mu.Unlock()
 	f.Closed[v] = true
+	f.regs[v] = nil
 	f.Events = append(f.Events, "deregister "+v)
 }
 func (f *Dispatch) Close() {}
@@ -56,6 +63,17 @@ func (f *Dispatch) Registered(v string) bool {
 	defer f.mu.Unlock()
 	_, ok := f.chans[v]
 	return ok
+}
+
+// Extras: the registrations of a virtual channel other than the latest one (a real dispatcher delivers every pack to each)
+func (f *Dispatch) Extras(v string) []chan *msgstream.MsgPack {
+	f.mu.Lock()
+	defer f.mu.Unlock()
+	r := f.regs[v]
+	if len(r) <= 1 {
+		return nil
+	}
+	return append([]chan *msgstream.MsgPack{}, r[:len(r)-1]...)
 }
 
 func (f *Dispatch) Chan(v string) chan *msgstream.MsgPack {
@@ -101,6 +119,11 @@ type Target struct {
 	Colls   map[string]*TColl             // by collection name
 	Answers map[string][]map[string]int64 // scripted answers of GetPartitionInfo per collection name; nil entry = error
 	Calls   int
+	// Meet > 1: every GetCollectionInfo call returns only when Meet callers have arrived (or after a grace period): two
+	// notifications of one collection are kept abreast of each other
+	Meet    int
+	arrived int
+	gate    chan struct{}
 }
 
 func NewTarget() *Target {
@@ -109,6 +132,24 @@ func NewTarget() *Target {
 
 func (t *Target) GetCollectionInfo(ctx context.Context, c, d string) (*model.CollectionInfo, error) {
 	t.mu.Lock()
+	if t.Meet > 1 {
+		if t.gate == nil {
+			t.gate = make(chan struct{})
+		}
+		g := t.gate
+		t.arrived++
+		if t.arrived >= t.Meet {
+			t.arrived = 0
+			t.gate = nil
+			close(g)
+		}
+		t.mu.Unlock()
+		select {
+		case <-g:
+		case <-time.After(40 * time.Millisecond):
+		}
+		t.mu.Lock()
+	}
 	defer t.mu.Unlock()
 	tc, ok := t.Colls[c]
 	if !ok || !tc.Exists {
